@@ -235,6 +235,11 @@ def runHolds (caseToks obsToks : List String) : String :=
     | some c, some o, ["t2c", t2c, "t2n", t2n] =>
       boolStr (holdsBridge c.src c.tgt o && holdsNoSpontaneousClose c.src c.tgt c.sw c.tw o && t2c == "1" && t2n == "0")
     | _, _, _ => "false"
+  | "bridgeadp" :: rest =>
+    -- the source end is served through streamDataForwarderAdapter (idle polls between its reads): same predicate
+    match parseBridge rest, parseBridgeObs obsToks with
+    | some c, some o => boolStr (holdsBridge c.src c.tgt o && holdsNoSpontaneousClose c.src c.tgt c.sw c.tw o)
+    | _, _ => "false"
   | "bridgereal" :: rest =>
     match parseBridge rest, parseBridgeObs obsToks with
     | some c, some o => boolStr (holdsBridge c.src c.tgt o && holdsNoSpontaneousClose c.src c.tgt c.sw c.tw o)
